@@ -74,7 +74,7 @@ CHECKS = {
          "with the Tier-1 clauses evaluated on logged values (spec/TracePipeline.tla); on the read side a source that stalls forever after frame j must see every item of frames 1..j yielded.",
          "TLC model checking of spec/PyPipeline.tla (action properties, liveness) + TLC trace validation of recorded pipeline event logs"),
  "C12": ("model_checking", "6 C12",
-         "spec/PyIsolation.tla: TLC checks that what a stream emits equals its solo output over ALL interleavings of the steps of independent streams, refutes the two shared-state designs (repeated terms / lookup table as process-wide state), and enumerates the interleavings (70 for 4+4 steps, three-way with a parser). "
+         "spec/PyIsolation.tla: serializer streams and parser processes in one system; TLC checks that what a stream emits equals its solo output and that what a parser yields is its workload (Isolated, IsolatedRead) over ALL interleavings, refutes five shared-state designs (repeated terms / lookup table / row buffer on the write side, decoder table / previous terms on the read side), and enumerates the interleavings (70 for 4+4 steps, three-way, two parsers). "
          "Each schedule is imposed on real generator pipelines of both integrations and a parser, then on real threads handing over a baton in that order, then free-running threads with a 1 microsecond switch interval; prior process history and fresh processes under several PYTHONHASHSEED values are compared with the solo bytes.",
          "TLC exhaustive enumeration of interleavings (spec/PyIsolation.tla) replayed on real generator pipelines and threads; subprocess determinism"),
  "C13": ("model_checking", "6 C13",
